@@ -2,6 +2,7 @@ package ana
 
 import (
 	"fmt"
+	"math/big"
 	"strconv"
 	"strings"
 )
@@ -43,13 +44,100 @@ func expandAliases(s string) string {
 
 // ParsePat parses a pattern; it panics on syntax errors (patterns are checker source).
 func ParsePat(s string) *pat {
+	raw := strings.HasPrefix(s, "raw:") // raw: the pattern is not canonicalised (comparisons of non-integers)
+	s = strings.TrimPrefix(s, "raw:")
 	p := &patParser{s: expandAliases(s)}
 	r := p.term()
 	p.ws()
 	if p.i != len(p.s) {
 		panic(fmt.Sprintf("pattern: trailing input at %d in %q", p.i, p.s))
 	}
-	return r
+	if raw {
+		return r
+	}
+	return canonPat(r)
+}
+
+func patInt(p *pat) (*big.Int, bool) {
+	if p == nil || p.lit == "" {
+		return nil, false
+	}
+	v, ok := new(big.Int).SetString(p.lit, 10)
+	return v, ok
+}
+
+// canonPat applies to patterns the part of canonBin (canon.go) that needs no
+// type information, so rule texts may keep the spelling of the pinned source:
+// operator normalisation against constants, len/cap compared with 0/1, the
+// range-loop index, single-bit tests. Type-dependent forms (signed
+// linearisation, unsigned division) must be written canonically in the rule.
+func canonPat(p *pat) *pat {
+	if p == nil {
+		return p
+	}
+	for i, a := range p.args {
+		p.args[i] = canonPat(a)
+	}
+	if p.op != "bin" || len(p.args) != 2 {
+		return p
+	}
+	l, r := p.args[0], p.args[1]
+	if cmpOps[p.name] {
+		if _, lc := patInt(l); lc {
+			if _, rc := patInt(r); !rc {
+				l, r = r, l
+				p.args[0], p.args[1] = l, r
+				p.name = swapOp[p.name]
+			}
+		}
+		k, isC := patInt(r)
+		if isC {
+			switch p.name {
+			case "<=":
+				p.name, k = "<", new(big.Int).Add(k, big.NewInt(1))
+			case ">":
+				p.name, k = ">=", new(big.Int).Add(k, big.NewInt(1))
+			}
+			if l.op == "len" || l.op == "cap" {
+				p.name, k = nonNegOp(p.name, k)
+			}
+			p.args[1] = &pat{lit: k.String()}
+			// bit tests
+			if (p.name == "==" || p.name == "!=") && l.op == "bin" && l.name == "&" && len(l.args) == 2 {
+				x, m := l.args[0], l.args[1]
+				if k.Sign() == 0 {
+					for n := 0; n < 2; n++ {
+						if m.op == "bin" && m.name == "<<" && len(m.args) == 2 {
+							if one, ok := patInt(m.args[0]); ok && one.Cmp(big.NewInt(1)) == 0 {
+								sh := &pat{op: "bin", name: ">>", args: []*pat{x, m.args[1]}}
+								p.args[0] = &pat{op: "bin", name: "&", args: []*pat{sh, &pat{lit: "1"}}}
+								return p
+							}
+						}
+						x, m = m, x
+					}
+				} else if mc, ok := patInt(l.args[1]); ok && mc.Cmp(k) == 0 && log2(mc) >= 0 {
+					if p.name == "==" {
+						p.name = "!="
+					} else {
+						p.name = "=="
+					}
+					p.args[1] = &pat{lit: "0"}
+				}
+			}
+		}
+		return p
+	}
+	if p.name == "+" && l.op == "ind" && len(l.args) == 1 {
+		if step, ok := parseStep(l.name); ok {
+			if k, isC := patInt(r); isC && k.Cmp(step) == 0 {
+				if c0, isC0 := patInt(l.args[0]); isC0 {
+					return &pat{op: "ind", name: l.name, args: []*pat{{lit: new(big.Int).Add(c0, step).String()}}}
+				}
+			}
+		}
+	}
+	return p
 }
 
 func (p *patParser) ws() {
